@@ -1,6 +1,6 @@
 (* C07 — property theorems.  Only statements, [exact lemma] and Print Assumptions. *)
 From Coq Require Import ZArith List Permutation Sorted.
-From FV Require Import Lib.RustInt C05.Model C05.Proofs C07.Proofs C07.Equiv C07.PromoteModel C07.Promote C07.IdGen C07.IdCounter C07.SharedPtsModel C07.SharedPts.
+From FV Require Import Lib.RustInt C05.Model C05.Proofs C07.Proofs C07.Equiv C07.PromoteModel C07.Promote C07.IdGen C07.IdCounter C07.SharedPtsModel C07.SharedPts C07.StateGen C07.StateAudit.
 Import ListNotations.
 Open Scope Z_scope.
 
@@ -154,6 +154,11 @@ Theorem c07_shared_points_hash_order_refuted :
     (forall l, Permutation l (perm l)) /\ compute_shared_points_perm perm tuples <> compute_shared_points tuples.
 Proof. exact shared_points_hash_order_refuted. Qed.
 
+(* ---- round 5: no process- or thread-wide state besides the id counter (lists GENERATED by translators/c07_state_audit.py) ---- *)
+Theorem c07_only_shared_state_is_id_counter :
+  thread_local_items = [] /\ mutable_static_items = [id_counter_item].
+Proof. exact only_shared_state_is_id_counter. Qed.
+
 (* NOT covered by these theorems: the space-assignment / isolation / duplication path (not modelled: the
    model answers Beyond there, identically for all streams), gvar / IVS / klippa: schedule experiment only. *)
 
@@ -180,3 +185,4 @@ Print Assumptions c07_narrow_counter_not_monotone.
 Print Assumptions c07_shared_points_first_max.
 Print Assumptions c07_shared_points_strict_winner_order_independent.
 Print Assumptions c07_shared_points_hash_order_refuted.
+Print Assumptions c07_only_shared_state_is_id_counter.
